@@ -26,10 +26,10 @@ SCHED_RULE = ('seeded random schedules + a systematic family (slow always-on pro
 
 prop('C01', 'other',
      'PROVED on the real source of Engine.run_for (463 obligations, all loops cut at invariants, any number of processes visited in any order, any sequence of timestep/condition answers, any call sequence -- the invariant is the pre- and postcondition): ghost ledger on Defer objects: a pending update is never overwritten (assert before the store into front), every token handed to _send_updates is issued, unconsumed and due exactly now, _send_updates consumes each collected token exactly once (Defer.get precondition) and no other, consumed tokens satisfy applied_at == due, no pending update crosses a call boundary. ASSUMED: behavioural contracts of user processes and of Defer.get / Store.apply_update (trusted, bounded-checked), floats as reals, no global_time_precision (that instance is bounded only), interval > 0, and the region of the known finding F-C03-shrink is excluded by an explicit environment assumption. BOUNDED: the observable form (accumulating variables at every emitted time == sum of updates whose interval ended) and the token discipline on the real engine.',
-     driver='bounded.sched', driver_args=['--prop', 'C01'], rule=SCHED_RULE, assumptions=[FLOATS])
+     drivers=[('bounded.sched', ['--prop', 'C01']), ('bounded.struct', ['--prop', 'C01'])], rule=SCHED_RULE, assumptions=[FLOATS])
 prop('C02', 'other',
      'PROVED on the real source of Engine.run_for (463 obligations, all loops cut at invariants, any number of processes visited in any order, any sequence of timestep/condition answers, any call sequence -- the invariant is the pre- and postcondition): at the only call site of _process_update the timestep handed over equals future - process_time (ghost assert; under forced truncation it is end_time - process_time), tokens carry g_dt == g_due - g_start, and after run_for(force_complete=True) every front is at global_time with nothing pending, which discharges the two run-time asserts of _check_complete as obligations. BOUNDED: clock-like variables equal elapsed time on the real engine, contiguity of intervals.',
-     driver='bounded.sched', driver_args=['--prop', 'C02'], rule=SCHED_RULE, assumptions=[FLOATS])
+     drivers=[('bounded.sched', ['--prop', 'C02']), ('bounded.struct', ['--prop', 'C02'])], rule=SCHED_RULE, assumptions=[FLOATS])
 prop('C03', 'other',
      'PROVED on the real source of Engine.run_for (463 obligations, all loops cut at invariants, any number of processes visited in any order, any sequence of timestep/condition answers, any call sequence -- the invariant is the pre- and postcondition): every assignment to global_time keeps old <= new <= end_time, the call returns with global_time == start + interval exactly, full_step is strictly positive whenever finite (strict progress of every applying iteration), emit times are strictly increasing for emit_step 1. NOT PROVED (bounded only): termination (watchdog incl. all-quiet and empty composites), the decimal-grid clause under global_time_precision (float rounding is outside the real-number encoding).',
      driver='bounded.sched', driver_args=['--prop', 'C03'], rule=SCHED_RULE, assumptions=[FLOATS])
@@ -58,7 +58,7 @@ TOPO_RULE = ('seeded random (ports schema, topology, placement, partial initial 
              'oracle addr = independent reading of the topology documentation')
 prop('C06', 'other',
      'PROVED (write-side helpers, all inputs): normalize_path == lexical normal form, assoc_path == tset, update_in changes only the addressed subtree (tupd) and creates the documented dictionaries, deep_merge == right-biased deep merge. NOT PROVED: inverse_topology itself (recursion with lambdas and in-place merges) and the read side (Store schema machinery). BOUNDED: read/write symmetry against the independent addr oracle on the real engine over the topology shape families.',
-     drivers=[('bounded.topo', ['--prop', 'C06'])], rule=TOPO_RULE)
+     drivers=[('bounded.topo', ['--prop', 'C06']), ('bounded.struct', ['--prop', 'C06'])], rule=TOPO_RULE)
 prop('C07', 'other',
      "PROVED (the engine side): _process_state -- the only place where a process is shown its states -- has the precondition 'views valid'; run_for, _send_updates and run_steps establish it at every call site: after any applied update that reports expiry the views are rebuilt before anything is invoked. TRUSTED: Store.apply_update reports expiry for every structural key; build_topology_views builds the declared shape. BOUNDED (the substance): states have exactly the declared shape, glob ports list exactly the current children, after every structural history.",
      drivers=[('bounded.topo', ['--prop', 'C07']), ('bounded.struct', ['--prop', 'C07']), ('bounded.steps', ['--prop', 'C07'])],
@@ -67,7 +67,7 @@ prop('C15', 'exploration',
      'BOUNDED ONLY (Store._apply_config / generate are schema-driven code outside the translated subset): after '
      'construction every declared variable exists at addr(q) holding the initial value if given else the declared default; '
      'glob children named in the initial state get the sub-schema defaults; nested globs with explicitly wired inner children.',
-     drivers=[('bounded.topo', ['--prop', 'C15'])], rule=TOPO_RULE)
+     drivers=[('bounded.topo', ['--prop', 'C15']), ('bounded.c13', ['--only', 'override', '--prop', 'C15'])], rule=TOPO_RULE)
 STRUCT_RULE = ('seeded random structural histories (<=3/4 ticks, 1-2 operations per tick from _add,_delete,_generate,_divide,'
                '_move plus value updates) against a reference model of the value tree, node identities, live-set bookkeeping')
 prop('C09', 'exploration',
